@@ -203,13 +203,17 @@ Definition stored_from (default_ttl : Z) (e : centry) (rq : request) (res : resp
   In (ce_key e) (keys_of rq) /\
   rs_err res = false /\ (rs_status res <? 400) = true /\ resp_has_errors res = false /\
   ttl (rs_cc res) default_ttl = Some (ce_ttl e) /\
-  storable_ok false (rs_cc res) default_ttl (Some (ce_ttl e)).
+  storable_ok false (rs_cc res) default_ttl (Some (ce_ttl e)) /\
+  (* the entry pairs the key with the entity the response holds at that key's position *)
+  (exists resp vals, rs_body res = BJson resp /\ get_loc [PName k_data; PName k_entities] resp = Some (JArr vals) /\
+                     In (ce_key e, ce_value e) (combine (keys_of rq) vals)).
 
 (* ---- C16(b) specification: boolean checkers evaluated on the implementation's observables
    (upstream requests with their status / error count / Cache-Control values, the recording
    cache's log).  [*_seq] is the number of upstream requests of the client request made so far. *)
-Record up_obs := { uo_run : nat; uo_seq : nat; uo_status : N; uo_nerrs : N; uo_cc : list bytes; uo_keys : list ckey }.
-Record set_obs := { so_run : nat; so_seq : nat; so_items : list (ckey * Z) }.
+Record up_obs := { uo_run : nat; uo_seq : nat; uo_status : N; uo_nerrs : N; uo_cc : list bytes; uo_keys : list ckey;
+                   uo_entities : list json (* the `_entities` of the response, in request order *) }.
+Record set_obs := { so_run : nat; so_seq : nat; so_items : list (ckey * json * Z) }.
 Record get_obs := { go_run : nat; go_seq : nat; go_keys : list ckey; go_found : list ckey; go_err : bool }.
 
 Fixpoint keys_eqb (a b : list ckey) : bool :=
@@ -223,7 +227,8 @@ Fixpoint keys_eqb (a b : list ckey) : bool :=
 Definition source_of (ups : list up_obs) (s : set_obs) : option up_obs :=
   find (fun u => Nat.eqb (uo_run u) (so_run s) && Nat.eqb (S (uo_seq u)) (so_seq s)) ups.
 
-(* stored(e) => clean (< 400, no errors) source whose headers make ttl = Some t, lifetime <= t, key of that response *)
+(* stored(e) => clean (< 400, no errors) source whose headers make ttl = Some t, lifetime <= t, and the
+   entry pairs a key of that request with the (object) entity the response has AT THAT KEY'S POSITION *)
 Definition clean_source_b (u : up_obs) : bool := (uo_status u <? 400) && (uo_nerrs u =? 0).
 Definition stored_ok_b (default : Z) (ups : list up_obs) (s : set_obs) : bool :=
   match source_of ups s with
@@ -232,7 +237,10 @@ Definition stored_ok_b (default : Z) (ups : list up_obs) (s : set_obs) : bool :=
     clean_source_b u &&
     match ttl (uo_cc u) default with
     | None => false
-    | Some t => forallb (fun it => (0 <? snd it)%Z && (snd it <=? t)%Z && existsb (ckey_eqb (fst it)) (uo_keys u)) (so_items s)
+    | Some t => forallb (fun it => (0 <? snd it)%Z && (snd it <=? t)%Z &&
+                                   existsb (fun kv => ckey_eqb (fst (fst it)) (fst kv) && json_eqb (snd (fst it)) (snd kv) &&
+                                                      match snd kv with JObj _ => true | _ => false end)
+                                           (combine (uo_keys u) (uo_entities u))) (so_items s)
     end
   end.
 (* refused: nothing is stored from a response whose headers give no lifetime *)
